@@ -10,6 +10,29 @@ STD_TRUST = [
 ]
 
 PROPS = {
+    "C19": dict(
+        units=["parse"],
+        level="proof",
+        min_obligations=60,
+        replay_family="c19",
+        bounded=[dict(family="c19", what="every proper prefix of a datum that fails to parse fails with an EOF-category error; error locations in bounds; io::Error kinds",
+                      bound="35 datums x all proper prefixes (default options) + 7 datums x all prefixes (Emacs options) + 22 malformed texts x 2 option sets x 3 sources")],
+        explanation="PROVED (Verus, unbounded): (location) every function that can return an error carries err_ok(r, input): a non-I/O error has a location that is "
+                    "pos_line/pos_col of SOME PREFIX of the input (errors are only built by error()/peek_error()/read::error from Read::position/peek_position, which "
+                    "are proved equal to the position of the consumed bytes [+ the byte under the cursor] for all three sources), and lemma_loc_in_bounds shows such a "
+                    "position has 1 <= line <= 1 + number of newlines and a column that counts bytes since the start of its line with no newline in between (so it never "
+                    "exceeds that line's length); (conversion) From<Error> for io::Error returns the wrapped error for Io, kind InvalidData for Syntax, UnexpectedEof for "
+                    "Eof, its unreachable!() is dead; Error::classify == the documented category table; (truncation, at the six lexer sites the property names) when the "
+                    "input ends inside #nil/#u8/#vu8 (expect_ident), before the first digit (parse_num_literal), right after the decimal point (parse_decimal), after the "
+                    "exponent marker or its sign (parse_exponent), or inside a UTF-8 sequence (decode_utf8_sequence), a non-I/O error is EOF-category. "
+                    "NOT PROVED: the global statement `prefix of a valid datum => EOF` needs the grammar of valid datums: BOUNDED stand-in on every run.",
+        assumptions=[
+            "std::io::Error::new(kind, payload) produces an error of that kind (IoErr::new, assumed); io::ErrorKind is modelled by a three-variant enum",
+            "f64_from_parts / f64_from_radix_parts are assumed to report their NumberOutOfRange error through Parser::error (location clause assumed for them)",
+        ],
+        not_covered=["truncation inside R6RS character names and inside a multi-byte character of a symbol (open known finding)", "global prefix => EOF statement (bounded stand-in only)"],
+        trusted=STD_TRUST,
+    ),
     "C20": dict(
         units=["val"],
         level="proof",
@@ -156,7 +179,7 @@ PROPS = {
         replay_family="c11",
         bounded=[dict(family="c11", what="every sub-datum reachable through list_iter / vector_iter: inside its parent, after its predecessor, covered text re-parses to its value, "
                                          "quote heads cover the shorthand, identical spans from str / slice / reader",
-                      bound="27 texts (multi-line, non-ASCII, nested, dotted, quoted) x 2 option sets x 3 sources")],
+                      bound="29 texts (multi-line, non-ASCII, nested, dotted, quoted) x 2 option sets x 3 sources")],
         explanation="PROVED (Verus, unbounded): Read::position of all three sources (SliceRead::position_of_index loop, StrRead delegation, IoRead over "
                     "LineColIterator's counters and the position remembered in front of a peeked byte) equals pos_line/pos_col of the bytes CONSUMED so far, for every "
                     "input and every peek/next/discard history - so the three sources report identical positions; next_datum/expect_datum return a datum whose own "
